@@ -350,7 +350,7 @@ def owns(prop, ev, tag):
     if prop in ("C03", "C04"):
         # the round-trip relation on the implementation's own values
         is_data = ev.get("kind") == "msg" and ev.get("v", {}).get("k") == "Data"
-        return e == "roundtrip" and is_data == (prop == "C04") and (died or tag in ("roundtrip", "native-eq"))
+        return e in ("roundtrip", "rt_sweep") and is_data == (prop == "C04") and (died or tag in ("roundtrip", "native-eq"))
     if prop == "C06":
         if e in ("bitmask", "bitmask_sweep"):
             return tag in ("bitmask-layout", "bitmask-reencode")
